@@ -108,6 +108,27 @@ def statement_rules():
             out.append(D.Program('binding', 'int', [('let', 'let', 'v', None, ('arr', [REP[c] for c in combo])), ('return', G.P('a', 'ival'))], tag='typing:array-elements'))
     for combo in itertools.product(akeys, repeat=2):
         out.append(D.Program('binding', 'QStringList', ('arr', [REP[c] for c in combo]), tag='typing:array-elements'))
+    # lexical scoping: a declaration inside a block / if body / switch clause ends with that scope -- later uses see
+    # the outer variable (its type and const-ness) or nothing at all
+    outer = [None, ('let', 'let', 'n', None, I(0)), ('let', 'const', 'n', None, I(0)), ('let', 'let', 'n', None, G.P('a', 'sval'))]
+    inner = [('let', 'let', 'n', None, G.P('b', 'ival')), ('let', 'let', 'n', None, G.P('b', 'sval')), ('let', 'const', 'n', None, G.P('b', 'ival'))]
+    def scope(kind, decl):
+        if kind == 'block':
+            return ('block', [decl])
+        if kind == 'if':
+            return ('if', G.P('a', 'flag'), [decl], None)
+        if kind == 'if-else':
+            return ('if', G.P('a', 'flag'), [('expr', I(1))], [decl])
+        if kind == 'switch':
+            return ('switch', G.P('a', 'ival'), [(I(1), [decl, ('break',)])])
+        return ('switch', G.P('a', 'ival'), [(I(1), [('break',)]), (None, [decl])])
+    uses = [('assign', 'n', I(2)), ('assign', 'n', ('lit', 'QString', 's')), ('expr', ('bin', '+', ('local', 'n'), I(1))), ('expr', ('bin', '+', ('local', 'n'), ('lit', 'QString', 's')))]
+    for o in outer:
+        for kind in ('block', 'if', 'if-else', 'switch', 'switch-default'):
+            for d in inner:
+                for u in uses:
+                    body = ([o] if o else []) + [scope(kind, d), u, ('return', G.P('a', 'ival'))]
+                    out.append(D.Program('binding', 'int', body, tag='typing:scoping'))
     # callbacks: property assignment, read-only property, method arguments
     for prop in ('ival', 'uval', 'dval', 'flag', 'sval', 'next', 'mode', 'items', 'cval'):
         for k in keys:
@@ -137,7 +158,7 @@ def typing_agreement(res):
     # the whole enumeration costs ~20 s of CLI time, so both tiers run all of it
     progs = list(return_triples(1, 0)) + list(operand_edits(1, 0)) + statement_rules()
     qmluic = C.build_native()
-    work = os.path.join(C.CACHE, 'tv', 'c05')
+    work = os.path.join(C.CACHE, 'tv', 'c05-%d' % os.getpid())
     shutil.rmtree(work, ignore_errors=True)
     seen, acc, rej, unjudged = set(), [], [], []
     for p in progs:
